@@ -33,58 +33,89 @@ Definition patch_device_offline (params : attrs) (m : master) : master :=
 (* ------------------------------------------------------------------------------------------------------------------ *)
 (* apply_provisioning: the requests, in the order they are issued, and the state afterwards *)
 
-Definition port_requests (c : cfg) (p : mport) : list request :=
+Inductive target :=
+| TDevice                      (* /device *)
+| TPort (id : string)          (* /ports/<id> *)
+| TPortValue (id : string)     (* /ports/<id>/value *)
+| TPorts                       (* /ports *)
+| TWebhooks
+| TReverse.
+
+Definition path_of (t : target) : string :=
+  match t with
+  | TDevice => "/device"
+  | TPort id => "/ports/" ++ id
+  | TPortValue id => "/ports/" ++ id ++ "/value"
+  | TPorts => "/ports"
+  | TWebhooks => "/webhooks"
+  | TReverse => "/reverse"
+  end.
+
+Record preq := mk_preq { q_method : string; q_target : target; q_body : body }.
+
+Definition to_request (q : preq) : request := mk_req (q_method q) (path_of (q_target q)) (q_body q).
+
+Definition port_requests (c : cfg) (p : mport) : list preq :=
   let a := prov_attrs (mp_prov p) (mp_cached p) in
-  ((match a with [] => [] | _ => [mk_req "PATCH" ("/ports/" ++ mp_id p) (BAttrs a)] end) ++
+  ((match a with [] => [] | _ => [mk_preq "PATCH" (TPort (mp_id p)) (BAttrs a)] end) ++
    (match prov_value p with
     | VNone => []
-    | v => [mk_req "PATCH" ("/ports/" ++ mp_id p ++ "/value") (if value_push_has_body c then BVal v else BNone)]
+    | v => [mk_preq "PATCH" (TPortValue (mp_id p)) (if value_push_has_body c then BVal v else BNone)]
     end))%list.
 
-Definition device_requests (m : master) : list request :=
+Definition device_requests (m : master) : list preq :=
   match prov_attrs (m_dev_prov m) (m_dev m) with
   | [] => []
-  | a => [mk_req "PATCH" "/device" (BAttrs a)]
+  | a => [mk_preq "PATCH" TDevice (BAttrs a)]
   end.
 
 Definition has_flag (f : Z) (flags : list Z) : bool := existsb (Z.eqb f) flags.
 
 (* flags: 1 = the device has webhooks, 2 = it has reverse calls (then their parameters are queried after provisioning) *)
-Definition provisioning_requests (c : cfg) (flags : list Z) (m : master) : list request :=
-  (device_requests m ++ flat_map (port_requests c) (m_ports m) ++
-   (if has_flag 1 flags then [mk_req "GET" "/webhooks" BNone] else []) ++
-   (if has_flag 2 flags then [mk_req "GET" "/reverse" BNone] else []))%list.
+Definition query_requests (flags : list Z) : list preq :=
+  ((if has_flag 1 flags then [mk_preq "GET" TWebhooks BNone] else []) ++
+   (if has_flag 2 flags then [mk_preq "GET" TReverse BNone] else []))%list.
+
+Definition provisioning_requests (c : cfg) (flags : list Z) (m : master) : list preq :=
+  (device_requests m ++ flat_map (port_requests c) (m_ports m) ++ query_requests flags)%list.
 
 (* clear_provisioning_attrs is only called when something was pending with a value; port.clear_provisioning always *)
-Definition clear_provisioning (m : master) : master :=
-  let m1 := match prov_attrs (m_dev_prov m) (m_dev m) with [] => m | _ => set_dev_prov m [] end in
-  set_ports m1 (map (fun p => with_prov p []) (m_ports m1)).
+(* ... and, in the repaired code, a value that has been sent is queued as the port's newest remote value (the device is
+   assumed to accept it) *)
+Definition provisioned_port (c : cfg) (p : mport) : mport :=
+  let p1 := if value_push_has_body c then match prov_value p with VNone => p | v => push v p end else p in
+  with_prov p1 [].
 
-Definition apply_provisioning (c : cfg) (flags : list Z) (m : master) : master * list request :=
-  (clear_provisioning m, provisioning_requests c flags m).
+Definition clear_provisioning (c : cfg) (m : master) : master :=
+  let m1 := match prov_attrs (m_dev_prov m) (m_dev m) with [] => m | _ => set_dev_prov m [] end in
+  set_ports m1 (map (provisioned_port c) (m_ports m1)).
+
+Definition apply_provisioning (c : cfg) (flags : list Z) (m : master) : master * list preq :=
+  (clear_provisioning c m, provisioning_requests c flags m).
 
 (* the HTTP client refuses to issue POST / PATCH / PUT without a body and GET with one (tornado): such a request never
    reaches the device *)
-Definition issued (r : request) : bool :=
-  let expects := String.eqb (r_method r) "PATCH" || String.eqb (r_method r) "POST" || String.eqb (r_method r) "PUT" in
-  match r_body r with BNone => negb expects | _ => expects end.
+Definition issued (q : preq) : bool :=
+  let expects := String.eqb (q_method q) "PATCH" || String.eqb (q_method q) "POST" || String.eqb (q_method q) "PUT" in
+  match q_body q with BNone => negb expects | _ => expects end.
 
 (* _handle_online of a listening slave: provision, then refresh the device attributes and the ports.  The answers of the
    refresh are arguments (they are what the device answers after it has applied the provisioning requests). *)
-Definition refresh_requests : list request := [mk_req "GET" "/device" BNone; mk_req "GET" "/ports" BNone].
+Definition refresh_requests : list preq := [mk_preq "GET" TDevice BNone; mk_preq "GET" TPorts BNone].
 
 Definition handle_online (c : cfg) (flags : list Z) (dev : attrs) (ports : list (attrs * option val)) (m : master)
-  : master * list request :=
+  : master * list preq :=
   let '(m1, reqs) := apply_provisioning c flags (set_online m true) in
-  (set_ready (fetch_ports c ports (fetch_device dev m1)) true, (reqs ++ refresh_requests)%list).
+  (set_ready (fetch_ports c ports (fetch_device c dev m1)) true, (reqs ++ refresh_requests)%list).
 
 (* reconnect of a polled slave (_poll_once): the GET /device probe is diffed first (guarded), then provisioning, then the ports
    are polled *)
 Definition poll_reconnect (c : cfg) (flags : list Z) (dev : attrs) (ports : list (attrs * option val)) (m : master)
-  : master * list request :=
+  : master * list preq :=
   let m0 := poll_device c dev m in
   let '(m1, reqs) := apply_provisioning c flags (set_online m0 true) in
-  (poll_ports c ports (set_ready m1 true), ([mk_req "GET" "/device" BNone] ++ reqs ++ [mk_req "GET" "/ports" BNone])%list).
+  (poll_ports c ports (set_ready m1 true),
+   ([mk_preq "GET" TDevice BNone] ++ reqs ++ [mk_preq "GET" TPorts BNone])%list).
 
 Definition handle_offline (m : master) : master := set_online m false.
 
